@@ -209,7 +209,8 @@ def _run(ctx: Ctx) -> None:
               "EscapeIsNoDelimiter"]
     fams = [f + "(0)" for f in ("RtFlat", "RtTails", "RtNeigh", "RtLead", "RtHosts", "OrigFlat", "OrigTails", "OrigNeigh", "OrigLead")]
     for base in (("H",) if quick else ("H", "Hs")):
-        enumerate_families(ctx, "data", "Url", [f for f in fams if not (quick and "Neigh" in f)], constants={**small, "BaseScheme": base}, invariants=sanity,
+        enumerate_families(ctx, "data", "Url", [f for f in fams if not (quick and "Neigh" in f)],
+                           constants={**small, "BaseScheme": base, **({"TailLen": 2} if base == "Hs" else {})}, invariants=sanity,
                            name=f"Url:model-sanity(base={base})", emit=False)
 
     # ------------------------------------------------------------ 2. TLC: enumerate the case space + reference verdict
@@ -249,7 +250,8 @@ def _run(ctx: Ctx) -> None:
         c = cj["case"]
         toks = c["s"]
         multi = any(len(SPELL[t]) > 1 for t in toks)
-        for v in range(nvar if multi else 1):
+        more = cj["exp"]["kind"] in ("foreign", "loopback", "allowed")     # alternative spellings where a host is in play
+        for v in range(nvar if (multi and more) else 1):
             u = spell(toks, v)
             if c["role"] == "rt":
                 try:
